@@ -29,6 +29,7 @@ RULE = (
     "state plus the patch's own directives; structural directives and the "
     "directives owned by surviving instructions never disappear. "
     "non-trivial = >=1 procedure, >=1 edit and >=1 state compared."
+    " The bytes of every scenario are also compared with the listing (cfi:bytes:*); 30% of the adjust-style patches have a temporary label in front of their closing directive; 10% of the IRs hold a twin module whose CFI table, bytes, blocks and symbols must stay as they were."
 )
 RULE += (
     " 15% of the procedures begin behind / end in front of their block's outer instructions;"
@@ -193,6 +194,9 @@ def gen_case(rng, tier, index):
             if rng.random() < 0.5:
                 lines.append({"l": ".Lnf0_end2", "temp": True})
         case["newfuncs"] = [{"name": "newfn0", "p": {"lines": lines}}]
+    if random.Random(f"c08-bystander:{index}").random() < 0.1:
+        # a twin module with the same procedures in the same IR
+        case["bystander"] = "twin"
     return case
 
 
@@ -375,6 +379,14 @@ def run_case(case):
         ob0 = irview.observe(r.bu, isa)
         state["locs0"] = module_locations(r.bu, ob0)
     r = rewrite.run(case, before_apply=before)
+    ch = rewrite.bystander_changes(r)
+    if ch is not None:
+        ctr["bystander_modules_compared"] = 1
+        for f in ch:
+            if f in ("aux:cfiDirectives", "bytes", "blocks", "symbols"):
+                viol.append({"key": "cfi:bystander-module-changed:" + f,
+                             "msg": "the twin module's " + f + " differ "
+                                    "from before the rewrite"})
     if r.exception is not None:
         kind, key = oracles.classify_apply_exception(case, r.exception)
         if kind == "raised":
